@@ -4,7 +4,7 @@
     model definition unchanged, and encodes the result. *)
 From Coq Require Import ZArith List Bool.
 From AV Require Import Base.PyList Base.PyFloat Tok.Model Tok.Spec Tok.OnlineSpec
-  Audio.Region IO.Source IO.Reader Audio.Pcm IO.Wav Audio.Energy Split.Duration Cli.Format
+  Audio.Region IO.Source IO.Load IO.Reader Audio.Pcm IO.Wav Audio.Energy Split.Duration Cli.Format
   Conc.Workers Conc.Monitor Split.Split Extract.Tree.
 Import ListNotations.
 Open Scope Z_scope.
@@ -231,6 +231,10 @@ Definition api_split_custom (a : tree) : tree :=
        (split_custom (tZs (arg a 0)) rate w ch (tF (arg a 4)) (tF (arg a 5)) (tF (arg a 6)) (tF (arg a 7))
                      (tB (arg a 8)) (tB (arg a 9)) (tBs (arg a 10)) (tOpt tZ (arg a 11))).
 
+(* 64: [data, rate, bytes per sample, skip option F, max_read option F] -> result data   (core._read_offline) *)
+Definition api_read_offline (a : tree) : tree :=
+  eRes eZs (read_offline (mkAudio (tZs (arg a 0)) (tZ (arg a 1)) (tZ (arg a 2))) (tOpt tF (arg a 3)) (tOpt tF (arg a 4))).
+
 (* 72: [tF, rate] -> option round(t*rate)  (max_read in samples) *)
 Definition api_round_mul (a : tree) : tree := eOpt eZ (py_round (fmul (tF (arg a 0)) (of_Z (tZ (arg a 1))))).
 
@@ -339,6 +343,7 @@ Definition dispatch (op : Z) (a : tree) : tree :=
   | 61 => api_to_array a
   | 62 => api_wav_encode a
   | 63 => api_wav_decode a
+  | 64 => api_read_offline a
   | 70 => api_split_energy a
   | 71 => api_split_custom a
   | 72 => api_round_mul a
